@@ -122,6 +122,30 @@ def run(ctx):
                 ctx.check(ok, "D3-BINDING", DISPLAY_SUM, "write@bb-in-%s" % sorted(h for h, b in body.loops.items() if e.bb in b),
                           "placeholders bound to (key, value of that key)",
                           "write at %s does not print (key, value) of the current map item in that order" % body.span_of(e.bb), body.span_of(e.bb))
+        # D3-EVERY-ENTRY: each entry is printed whatever its value: one line per S / I value, one per element of an A value; no condition
+        #                 on the value (empty, repeated, ...) decides whether a line is written
+        def writes(p_, blks):
+            return [e_ for e_ in p_.events if e_.kind == "call" and e_.path.endswith("write_fmt") and e_.bb in blks]
+        outer = [h for h in body.loops if "btree_map" in (loop_driver(body, paths, h) or "")]
+        inner = [h for h in body.loops if "slice::Iter" in (loop_driver(body, paths, h) or "")]
+        bad_iter = []
+        for h in outer + inner:
+            blks = body.loops[h]
+            nested = set().union(*[body.loops[h2] for h2 in body.loops if h2 != h and body.loops[h2] < blks]) if any(body.loops[h2] < blks for h2 in body.loops if h2 != h) else set()
+            for p_ in paths:
+                if p_.end[0] != "back" or p_.end[1] != h:
+                    continue
+                own = [e_ for e_ in writes(p_, blks) if e_.bb not in nested]
+                through_inner = any(b_ in nested for b_ in p_.blocks)
+                if len(own) != 1 and not (h in outer and through_inner and len(own) == 0):
+                    bad_iter.append((h, len(own)))
+                # conditions inside this iteration other than discriminant tests (which kind, Some/None of next, Ok/Err of the write)
+                extra = [c for c in p_.conds() if c.bb in blks and c.term[0] != "discr"]
+                if extra:
+                    bad_iter.append((h, term_str(extra[0].term)[:60]))
+        ctx.check(bool(outer) and not bad_iter, "D3-EVERY-ENTRY", DISPLAY_SUM, "one-line-per-value", "every iteration writes exactly one line, unconditionally",
+                  "Display for Summary has an iteration that writes %s lines or is guarded by a condition on the value (%s): some stored values would not be printed, so printing and parsing back loses them"
+                  % (bad_iter[0][1] if bad_iter else "?", bad_iter[:2]), fn_span(body))
         # A arm iterates the vector front to back
         a_loops = [h for h in body.loops if "slice::Iter" in (loop_driver(body, paths, h) or "")]
         ctx.check(len(a_loops) >= 1, "D3-A-ORDER", DISPLAY_SUM, "list-iteration", "multi-line values are printed by a forward slice iteration",
